@@ -286,6 +286,18 @@ Definition oracle_gr_all (s s' : sgr) (o : line) (r : list bytes) : list bytes :
           end)
        end
      else []) ++
+    (* ---- C18: TRACE is answered by the trace handler exactly on routers created with the option *)
+    (let traced :=
+       if is_g then match List.find (fun x => beqb (gr_name x) rname) (g_routers (grp s)) with
+                    | Some x => Some (has_trace (rtree (gr_router x))) | None => None end
+       else match alookup (arg 1 o) (solo s) with Some (rr, _) => Some (has_trace (rtree rr)) | None => None end in
+     let method := arg (if is_g then 1 else 2) o in
+     match traced with
+     | Some tr =>
+       check (negb (beqb core (bs "TR")) || (tr && beqb method TRACE)) "C18:trace-handler-without-option" ++
+       check (negb (tr && beqb method TRACE) || beqb core (bs "TR")) "C18:trace-request-not-answered-by-the-trace-handler"
+     | None => []
+     end) ++
     (* ---- C16: the first raised value reaches the recovery function exactly once, or escapes unchanged *)
     (let recover_on :=
        if is_g then
